@@ -193,8 +193,18 @@ def allow_rename_globals(module, rename_globals=False, preserve_globals=None):
 
     preserve_globals.extend(find__all__(module))
 
+    def only_declared_global(binding):
+        # A name that is declared global but only ever read is not bound by this module
+        declared = False
+        for node in binding.references:
+            if isinstance(node, ast.Global):
+                declared = True
+            elif not (isinstance(node, ast.Name) and isinstance(node.ctx, ast.Load)):
+                return False
+        return declared
+
     for binding in module.bindings:
-        if rename_globals is False or binding.name in preserve_globals:
+        if rename_globals is False or binding.name in preserve_globals or only_declared_global(binding):
             binding.disallow_rename()
 
 
